@@ -9,9 +9,10 @@ confirm)
   git -C $wt diff > /tmp/_seed_patch.diff
   [ -s /tmp/_seed_patch.diff ] || { echo "no change applied in $wt"; exit 1; }
   (cd $wt && PYTHONPATH=$wt /venv/bin/python $sd/demo.py > /tmp/_demo_changed.log 2>&1); c=$?
-  git -C $wt stash -q
+  # never `git stash`: the stash is shared by every worktree of the repository
+  git -C $wt apply -R /tmp/_seed_patch.diff
   (cd $wt && PYTHONPATH=$wt /venv/bin/python $sd/demo.py > /tmp/_demo_orig.log 2>&1); o=$?
-  git -C $wt stash pop -q
+  git -C $wt apply /tmp/_seed_patch.diff
   echo "demo: changed exit=$c original exit=$o"
   (cd $wt && PYTHONPATH=$wt /venv/bin/python -m pytest -q -p no:cacheprovider --timeout=900 -n 12 --junitxml=/tmp/_seed_junit.xml tests > /tmp/_seed_pytest.log 2>&1)
   python3 - <<'PY'
